@@ -9,71 +9,120 @@ The DIP text is built from the lines the Lean `render` returns, so the theorem
 import itertools
 import json
 import warnings
-from pathlib import Path
 
 from harness.core import Ctx, VERIF
 
-RULE = ("program trees (items = node | modification | group | block of 1-4 clauses with optional @else and "
-        "optional @end), nesting depth <= 5 (thorough 6), children 1-3 columns deeper than their keyword, blocks "
-        "closed by @end, by the next sibling, by de-indentation of any number of levels or by the end of the text; "
-        "every tree shape with <= 6 conditions is run under ALL truth assignments, larger ones under random ones; "
-        "text decorations (blank lines, comment lines, trailing comments, expression conditions referring to a "
-        "top-level node) on a share of the programs; malformed stream = rendered programs with inserted / deleted / "
-        "re-indented lines incl. stray @else/@end/@case. non-trivial = program with a block closed by indentation "
-        "or nested blocks or an unselected clause containing nodes; distinct = canonical JSON of tree + assignment")
+RULE = ("program trees (items = node | modification | property line below a node or on its own | group | block of "
+        "1-4 clauses with optional @else and optional @end, written plainly or in compact form `parent.@case`), "
+        "nesting depth <= 5 (thorough 6), children 1-3 columns deeper than their keyword, blocks closed by @end, by "
+        "the next sibling (node, group, property line, block of another parent), by de-indentation of any number of "
+        "levels or by the end of the text; every tree shape with <= 6 conditions is run under ALL truth "
+        "assignments, larger ones under random ones; text decorations (blank lines, comment lines, trailing "
+        "comments, expression conditions referring to a top-level node) on a share of the programs; malformed "
+        "stream = rendered programs with inserted / deleted / re-indented / re-parented lines incl. stray "
+        "@else/@end/@case with equal and different parents; a few hand-written texts with expression conditions. "
+        "non-trivial = program with a block closed by indentation or nested blocks or an unselected clause "
+        "containing lines or neighbouring compact blocks; distinct = canonical JSON of tree + assignment")
 ASSUMPTIONS = [
     "conditions are the literals `@case true` / `@case false` (a share: `@case (\"{?zt} == 1\")` against a "
-    "top-level int node); arbitrary expressions belong to C18",
-    "written names are plain identifiers (no dots, no compact `plant.@case` form); node lines are `name int = v` "
-    "and `name = v` with small ints, so define-or-modify (C14) is exercised only in its simplest form",
-    "clause lines inside an unselected clause are still parsed by the code (their expressions are evaluated); with "
-    "literal conditions this is unobservable",
-    "imports, units, sources, properties, tables and `parse_docs` are outside the model",
+    "top-level int node, and hand-written texts in corpus/C15/texts.json); arbitrary expressions belong to C18",
+    "written names are plain identifiers; clause keywords may carry a dotted parent of plain identifiers "
+    "(`engine.@case`, `g.h.@else`); node lines are `name int = v` and `name = v` with small ints, property lines "
+    "`!constant` and `!tags [\"t\"]`; define-or-modify (C14) and property attachment to env.nodes[-1] (C16) are "
+    "applied identically to the model's and the specification's list of effective lines",
+    "a later @case of a block whose earlier clause is already true is still evaluated by the code "
+    "(unobservable with literal conditions)",
+    "imports, units, sources, tables and `parse_docs` are outside the model",
 ]
-EXPLANATION = ("theorems: for every program tree, truth assignment and indentation oracle the state machine "
-               "(hierarchy + branching + order of tests in DIP.parse) returns exactly the nodes of the selected "
-               "clauses; every @else/@end (and @case after @else) that is misplaced according to a declarative "
-               "definition on raw line sequences makes the machine fail")
+EXPLANATION = ("theorems: for every program tree, truth assignment, indentation oracle and written parents the state "
+               "machine (hierarchy + branching + order of tests in DIP.parse) returns exactly the lines of the "
+               "selected clauses; every @else/@end (and @case after @else) that is misplaced according to a "
+               "declarative definition on raw line sequences makes the machine fail")
 
 NAMES = ["a", "b", "c", "d", "e"]
 GROUPS = ["g", "h", "k"]
+PARENTS = [["g"], ["h"], ["k"], ["g", "h"], ["engine"], ["wheels"]]
 
 
 # ------------------------------------------------------------------ generation
-def gen_items(rng, depth, n=None, sure=None):
-    """`sure`: names certainly defined (under the current group path) whenever this sequence is
-    effective; most modifications refer to those, so that few programs end in
-    'modifying undefined node'."""
-    if n is None:
-        n = rng.choice([0, 1, 1, 2, 2, 3])
-    sure = set() if sure is None else set(sure)
-    out = []
-    for _ in range(n):
-        out.append(gen_item(rng, depth, sure))
-    return out
-
-
 def gen_extra(rng):
     return rng.choice([0, 0, 0, 1, 1, 2])
 
 
-def gen_item(rng, depth, sure):
+def gen_prop(rng):
+    return "const" if rng.random() < 0.3 else "tags:t%d" % rng.randint(1, 3)
+
+
+def gen_items(rng, depth, n=None, sure=None, frozen=None):
+    """`sure`: names certainly defined (under the current path) whenever this sequence is effective; most
+    modifications refer to those, so that few programs end in 'modifying undefined node'.
+    `frozen`: names that may have been made constant (avoided afterwards for the same reason)."""
+    if n is None:
+        n = rng.choice([0, 1, 1, 2, 2, 3])
+    sure = set() if sure is None else set(sure)
+    frozen = set() if frozen is None else frozen
+    out = []
+    last_def = None
+    for _ in range(n):
+        it = gen_item(rng, depth, sure, frozen, last_def, out)
+        if it[0] == "n" and not it[2]:
+            last_def = it[1]
+        elif it[0] in ("g", "b"):
+            last_def = None        # nodes[-1] is no longer known
+        out.append(it)
+    return out
+
+
+def gen_item(rng, depth, sure, frozen, last_def, prev_items):
     r = rng.random()
-    if depth <= 0 or r < 0.38:
+    prev_block = bool(prev_items) and prev_items[-1][0] == "b"
+    if r < (0.18 if prev_block else 0.06) and (last_def is not None or (prev_block and sure)):
+        # a property line on its own: after a node, or directly after a block
+        p = gen_prop(rng)
+        if p == "const":
+            frozen.update(NAMES)    # cannot know which node it freezes: stop generating modifications
+            sure.clear()
+        return ["p", p]
+    if depth <= 0 or r < 0.40:
         q = rng.random()
         if q < 0.3 and sure:
-            return ["n", rng.choice(sorted(sure)), True, rng.randint(0, 9)]
+            return ["n", rng.choice(sorted(sure)), True, rng.randint(0, 9), []]
         if q > 0.985:
-            return ["n", rng.choice(NAMES), True, rng.randint(0, 9)]
-        name = rng.choice(NAMES)
-        sure.add(name)
-        return ["n", name, False, rng.randint(0, 9)]
+            return ["n", rng.choice(NAMES), True, rng.randint(0, 9), []]
+        free = [x for x in NAMES if x not in frozen] or NAMES
+        name = rng.choice(free)
+        props = []
+        if rng.random() < 0.2:
+            for _ in range(rng.choice([1, 1, 2])):
+                props.append([gen_extra(rng), gen_prop(rng)])
+        if any(p[1] == "const" for p in props):
+            frozen.add(name)
+            sure.discard(name)
+        else:
+            sure.add(name)
+        return ["n", name, False, rng.randint(0, 9), props]
     if r < 0.52:
         return ["g", rng.choice(GROUPS), gen_extra(rng), gen_items(rng, depth - 1)]
+    # a block; after a compact block another compact block is likely (equal or different parent)
+    if prev_block and prev_items[-1][1] and rng.random() < 0.7:
+        pfx = list(prev_items[-1][1]) if rng.random() < 0.4 else rng.choice(PARENTS)
+    else:
+        pfx = rng.choice(PARENTS) if rng.random() < 0.3 else []
     ncl = rng.choice([1, 1, 2, 2, 3, 4])
-    cl = [[rng.random() < 0.45, gen_extra(rng), gen_items(rng, depth - 1, sure=sure)] for _ in range(ncl)]
-    els = [gen_extra(rng), gen_items(rng, depth - 1, sure=sure)] if rng.random() < 0.5 else None
-    return ["b", cl, els, rng.random() < 0.35]
+    inner_sure = sure if not pfx else set()
+    inner_frozen = frozen if not pfx else set()
+    cl = [[rng.random() < 0.45, gen_extra(rng), gen_items(rng, depth - 1, sure=inner_sure, frozen=set(inner_frozen))]
+          for _ in range(ncl)]
+    els = [gen_extra(rng), gen_items(rng, depth - 1, sure=inner_sure, frozen=set(inner_frozen))] \
+        if rng.random() < 0.5 else None
+    if not pfx:
+        # a clause may have frozen or redefined things: be careful afterwards
+        for body in [c[2] for c in cl] + ([els[1]] if els else []):
+            for it in body:
+                if it[0] == "p" or (it[0] == "n" and any(p[1] == "const" for p in it[4])):
+                    frozen.update(NAMES)
+                    sure.clear()
+    return ["b", pfx, cl, els, rng.random() < 0.35]
 
 
 def conditions(items):
@@ -83,39 +132,74 @@ def conditions(items):
         if it[0] == "g":
             out += conditions(it[3])
         elif it[0] == "b":
-            for cl in it[1]:
+            for cl in it[2]:
                 out.append(cl)
                 out += conditions(cl[2])
-            if it[2] is not None:
-                out += conditions(it[2][1])
+            if it[3] is not None:
+                out += conditions(it[3][1])
     return out
 
 
-def features(items, depth=0, inside=False):
-    """(max block nesting, has block closed by indentation/eof, has unselected clause with nodes)"""
-    nest, byind, unsel = depth, False, False
+def features(items, depth=0):
+    """(max block nesting, block closed by indentation/eof/neighbour, unselected clause with lines,
+    neighbouring compact blocks, property line directly after a block)"""
+    nest, byind, unsel, compact, propafter = depth, False, False, False, False
     for idx, it in enumerate(items):
         if it[0] == "g":
-            a, b, c = features(it[3], depth, inside)
-            nest, byind, unsel = max(nest, a), byind or b, unsel or c
+            a, b, c, d, e = features(it[3], depth)
+            nest, byind, unsel, compact, propafter = max(nest, a), byind or b, unsel or c, compact or d, propafter or e
         elif it[0] == "b":
             nxt = items[idx + 1] if idx + 1 < len(items) else None
-            if not it[3] and not (nxt is not None and nxt[0] == "b"):
+            same_next = nxt is not None and nxt[0] == "b" and nxt[1] == it[1]
+            if not it[4] and not same_next:
                 byind = True
+                if nxt is not None and nxt[0] == "b":
+                    compact = True
+                if nxt is not None and nxt[0] == "p":
+                    propafter = True
             taken = False
-            bodies = [(cl[0], cl[2]) for cl in it[1]] + ([(True, it[2][1])] if it[2] is not None else [])
+            bodies = [(cl[0], cl[2]) for cl in it[2]] + ([(True, it[3][1])] if it[3] is not None else [])
             for c, body in bodies:
                 sel = c and not taken
                 taken = taken or c
                 if not sel and body:
                     unsel = True
-                a, b, cc = features(body, depth + 1, True)
-                nest, byind, unsel = max(nest, a), byind or b, unsel or cc
-    return nest, byind, unsel
+                a, b, cc, d, e = features(body, depth + 1)
+                nest, byind, unsel, compact, propafter = max(nest, a), byind or b, unsel or cc, compact or d, propafter or e
+    return nest, byind, unsel, compact, propafter
+
+
+def case_contexts(items, ok=True, out=None):
+    """For every `@case` line in rendering order: are all clauses enclosing that line selected?"""
+    out = [] if out is None else out
+    for it in items:
+        if it[0] == "g":
+            case_contexts(it[3], ok, out)
+        elif it[0] == "b":
+            taken = False
+            for c, _, body in it[2]:
+                out.append(ok)
+                sel = c and not taken
+                taken = taken or c
+                case_contexts(body, ok and sel, out)
+            if it[3] is not None:
+                case_contexts(it[3][1], ok and not taken, out)
+    return out
 
 
 # ------------------------------------------------------------------ real code
+def canon_value(v):
+    if isinstance(v, bool) or not isinstance(v, int):
+        try:
+            iv = int(v)
+            return iv if iv == v and not isinstance(v, bool) else repr(v)
+        except Exception:
+            return repr(v)
+    return v
+
+
 def impl_run(text):
+    """[[name, value, constant, tags], …] in env.nodes order, or 'err'; plus branching counters."""
     from scinumtools.dip import DIP
     with warnings.catch_warnings():
         warnings.simplefilter("ignore")
@@ -124,14 +208,13 @@ def impl_run(text):
                 p.add_string(text)
                 env = p.parse()
             data = []
-            for k, v in env.data().items():
-                if isinstance(v, bool) or not isinstance(v, int):
-                    try:
-                        iv = int(v)
-                        v = iv if iv == v and not isinstance(v, bool) else repr(v)
-                    except Exception:
-                        v = repr(v)
-                data.append([k, v])
+            for n in env.nodes:
+                val = n.value.value if n.value is not None else None
+                data.append([n.name, canon_value(val), bool(n.constant), list(n.tags) if n.tags else []])
+            # env.data() must agree with env.nodes (it is what the property observes)
+            d = env.data()
+            if [k for k in d] != [r[0] for r in data] or [canon_value(v) for v in d.values()] != [r[1] for r in data]:
+                data.append(["<env.data() differs>", repr(d), False, []])
             st = {"open": len(env.branching.state), "num_cases": int(env.branching.num_cases),
                   "num_branches": int(env.branching.num_branches)}
             return data, st
@@ -139,21 +222,29 @@ def impl_run(text):
             return "err", None
 
 
-def to_text(lines, rng=None, deco=None):
-    """DIP text of the rendered lines. `deco`: None | 'blank' | 'expr' (harness-level decorations)."""
+def to_text(lines, rng=None, deco=None, ctxs=None):
+    """DIP text of the rendered lines. `deco`: None | 'blank' | 'expr' | 'undef' (harness-level decorations).
+    'undef': every @case line lying inside an unselected clause (`ctxs`, see case_contexts) gets a condition
+    that cannot be evaluated (it refers to a node that does not exist) — it must not be evaluated."""
     out = []
+    ncase = 0
     if deco == "expr":
         out.append("zt int = 1")
     for ind, txt in lines:
-        if deco == "expr" and txt.startswith("@case "):
-            txt = '@case ("{?zt} == %d")' % (1 if txt.endswith("true") else 0)
+        if deco == "expr" and "@case " in txt:
+            head = txt[:txt.index("@case ")]
+            txt = head + '@case ("{?zt} == %d")' % (1 if txt.endswith("true") else 0)
+        if "@case " in txt:
+            if deco == "undef" and ctxs is not None and ncase < len(ctxs) and not ctxs[ncase]:
+                txt = txt[:txt.index("@case ")] + '@case ("{?zq} == 1")'
+            ncase += 1
         if deco == "blank" and rng is not None:
             r = rng.random()
             if r < 0.15:
                 out.append("")
             elif r < 0.3:
                 out.append(" " * rng.randint(0, ind + 3) + "# note")
-            elif r < 0.45 and not txt.startswith("@e"):
+            elif r < 0.45 and "@else" not in txt and "@end" not in txt:
                 txt = txt + "   # note"
         out.append(" " * ind + txt)
     return "\n".join(out)
@@ -168,41 +259,46 @@ def classify(imp, spec):
     if imp == "err":
         return "ast:error-on-valid-program"
     if spec == "err":
-        return "ast:accepted-modification-of-unselected-node"
-    ik, sk = [k for k, _ in imp], [k for k, _ in spec]
+        return "ast:accepted-what-the-selected-lines-make-fail"
+    ik, sk = [r[0] for r in imp], [r[0] for r in spec]
     if any(k not in ik for k in sk):
         return "ast:effective-node-dropped"
     if any(k not in sk for k in ik):
         return "ast:unselected-node-took-effect"
-    if dict(map(tuple, imp)) != dict(map(tuple, spec)):
-        return "ast:wrong-value"
-    return "ast:order"
+    if [r[:2] for r in imp] != [r[:2] for r in spec]:
+        return "ast:wrong-value" if sorted(ik) == sorted(sk) and dict((r[0], r[1]) for r in imp) != dict((r[0], r[1]) for r in spec) else "ast:order"
+    return "ast:property-line"
 
 
 def reductions(items):
     """Smaller variants of a program tree (for shrinking)."""
     for i, it in enumerate(items):
         yield items[:i] + items[i + 1:]
-        if it[0] == "g":
+        if it[0] == "n" and it[4]:
+            for j in range(len(it[4])):
+                yield items[:i] + [it[:4] + [it[4][:j] + it[4][j + 1:]]] + items[i + 1:]
+        elif it[0] == "g":
             yield items[:i] + it[3] + items[i + 1:]
             for sub in reductions(it[3]):
                 yield items[:i] + [["g", it[1], it[2], sub]] + items[i + 1:]
             if it[2]:
                 yield items[:i] + [["g", it[1], 0, it[3]]] + items[i + 1:]
         elif it[0] == "b":
-            cl, els, ee = it[1], it[2], it[3]
+            pfx, cl, els, ee = it[1], it[2], it[3], it[4]
             if len(cl) > 1:
                 for j in range(len(cl)):
-                    yield items[:i] + [["b", cl[:j] + cl[j + 1:], els, ee]] + items[i + 1:]
+                    yield items[:i] + [["b", pfx, cl[:j] + cl[j + 1:], els, ee]] + items[i + 1:]
             if els is not None:
-                yield items[:i] + [["b", cl, None, ee]] + items[i + 1:]
+                yield items[:i] + [["b", pfx, cl, None, ee]] + items[i + 1:]
                 for sub in reductions(els[1]):
-                    yield items[:i] + [["b", cl, [els[0], sub], ee]] + items[i + 1:]
+                    yield items[:i] + [["b", pfx, cl, [els[0], sub], ee]] + items[i + 1:]
+            if len(pfx) > 1:
+                yield items[:i] + [["b", pfx[:1], cl, els, ee]] + items[i + 1:]
             for j in range(len(cl)):
                 for sub in reductions(cl[j][2]):
-                    yield items[:i] + [["b", cl[:j] + [[cl[j][0], cl[j][1], sub]] + cl[j + 1:], els, ee]] + items[i + 1:]
+                    yield items[:i] + [["b", pfx, cl[:j] + [[cl[j][0], cl[j][1], sub]] + cl[j + 1:], els, ee]] + items[i + 1:]
                 if cl[j][1]:
-                    yield items[:i] + [["b", cl[:j] + [[cl[j][0], 0, cl[j][2]]] + cl[j + 1:], els, ee]] + items[i + 1:]
+                    yield items[:i] + [["b", pfx, cl[:j] + [[cl[j][0], 0, cl[j][2]]] + cl[j + 1:], els, ee]] + items[i + 1:]
 
 
 def eval_ast(ctx, items):
@@ -214,7 +310,7 @@ def eval_ast(ctx, items):
     return r, imp, st
 
 
-def shrink_ast(ctx, items, max_steps=150):
+def shrink_ast(ctx, items, max_steps=200):
     steps = 0
     progress = True
     while progress and steps < max_steps:
@@ -237,24 +333,27 @@ def judge_ast(ctx, items, r, deco, rng_for_deco, tag):
         ctx.disagreement("ast", {"items": items}, "driver error %s" % (r,))
         return
     r = r["ok"]
-    text = to_text(r["lines"], rng_for_deco, deco)
+    ctxs = case_contexts(items) if deco == "undef" else None
+    text = to_text(r["lines"], rng_for_deco, deco, ctxs)
+    if ctxs is not None:
+        ctx.count("ast.conditions_not_evaluable_inside_unselected_clauses", sum(1 for c in ctxs if not c))
     imp, st = impl_run(text)
     spec, model = r["spec"], r["model"]
     if deco == "expr" and imp != "err":
-        if imp[:1] != [["zt", 1]]:
+        if imp[:1] != [["zt", 1, False, []]]:
             imp = "zt-missing"
         else:
             imp = imp[1:]
-    nest, byind, unsel = features(items)
-    ctx.case(["ast", items, deco], nest >= 2 or byind or unsel,
+    nest, byind, unsel, compact, propafter = features(items)
+    ctx.case(["ast", items, deco], nest >= 2 or byind or unsel or compact,
              {"text": text.split("\n")[:12], "data": imp if imp == "err" else imp[:6]})
     ctx.count("ast.%s" % tag)
     ctx.count("ast.lines", len(r["lines"]))
     ctx.count("ast.nest%d" % min(nest, 6))
-    if byind:
-        ctx.count("ast.closed_by_indent_or_eof")
-    if unsel:
-        ctx.count("ast.unselected_clause_with_nodes")
+    for flag, key in ((byind, "closed_by_indent_eof_or_neighbour"), (unsel, "unselected_clause_with_lines"),
+                      (compact, "block_directly_after_block_of_other_parent"), (propafter, "property_line_directly_after_block")):
+        if flag:
+            ctx.count("ast." + key)
     if deco:
         ctx.count("ast.deco." + deco)
     if imp == "err":
@@ -274,7 +373,8 @@ def judge_ast(ctx, items, r, deco, rng_for_deco, tag):
             if res and res[1] != res[0]["spec"]:
                 small, imp2, text2, spec2 = cand, res[1], to_text(res[0]["lines"]), res[0]["spec"]
         ctx.violation(classify(imp2, spec2),
-                      "program\n    %s\n  real parser gives %s, the selected clauses give %s" %
+                      "program\n    %s\n  real parser gives %s, the selected clauses give %s "
+                      "([name, value, constant, tags] per node)" %
                       (text2.replace("\n", "\n    "), imp2, spec2),
                       {"stream": "ast", "items": small, "deco": deco if small is items else None,
                        "text": text2, "impl": imp2, "spec": spec2})
@@ -300,12 +400,15 @@ def ast_stream(ctx, n_shapes, max_depth, exhaustive_cap, corpus_items):
             for bits in itertools.product([False, True], repeat=len(conds)):
                 for cl, b in zip(conds, bits):
                     cl[0] = b
-                batch.append((json.loads(json.dumps(items)), None, "exhaustive"))
+                batch.append((json.loads(json.dumps(items)), "undef" if len(conds) >= 2 and rng.random() < 0.25 else None,
+                              "exhaustive"))
         else:
             for _ in range(3):
                 for cl in conds:
                     cl[0] = rng.random() < 0.45
-                deco = rng.choice([None, None, None, "blank", "expr"])
+                deco = rng.choice([None, None, "undef", "blank", "expr"])
+                if deco == "expr" and '["p",' in json.dumps(items):
+                    deco = "blank"     # a lone property line could attach to the helper node `zt`
                 batch.append((json.loads(json.dumps(items)), deco, "random"))
     ctx.extra["exhaustive_part"] = "%d tree shapes with <=6 conditions under all truth assignments" % n_exh
     res = ctx.driver.ask_many([{"p": "C15", "k": "ast", "items": it} for it, _, _ in batch])
@@ -314,21 +417,6 @@ def ast_stream(ctx, n_shapes, max_depth, exhaustive_cap, corpus_items):
 
 
 # ------------------------------------------------------------------ malformed / raw line stream
-def parse_text_line(ind, txt):
-    if txt.startswith("@case"):
-        return [ind, "c1" if txt.endswith("true") else "c0", "", 0]
-    if txt == "@else":
-        return [ind, "else", "", 0]
-    if txt == "@end":
-        return [ind, "end", "", 0]
-    parts = txt.split()
-    if len(parts) == 1:
-        return [ind, "g", parts[0], 0]
-    if parts[1] == "int":
-        return [ind, "n", parts[0], int(parts[3])]
-    return [ind, "m", parts[0], int(parts[2])]
-
-
 def mutate_lines(rng, lines):
     lines = [list(l) for l in lines]
     for _ in range(rng.choice([1, 1, 2, 3])):
@@ -336,20 +424,32 @@ def mutate_lines(rng, lines):
         indents = sorted({l[0] for l in lines} | {0})
         ind = max(0, rng.choice(indents) + rng.choice([0, 0, 0, 1, -1]))
         pos = rng.randint(0, len(lines))
-        if r < 0.5:
+        parents = [l[2] for l in lines if l[1] in ("c1", "c0", "else", "end")] or [[]]
+        if r < 0.45:
             kind = rng.choice(["else", "end", "else", "end", "c1", "c0"])
-            lines.insert(pos, [ind, kind, "", 0])
-        elif r < 0.65 and lines:
+            q = rng.random()
+            par = list(rng.choice(parents)) if q < 0.5 else ([] if q < 0.7 else rng.choice(PARENTS))
+            lines.insert(pos, [ind, kind, par, 0])
+        elif r < 0.55 and lines:
+            # re-parent a clause line
+            cands = [i for i, l in enumerate(lines) if l[1] in ("c1", "c0", "else", "end")]
+            if cands:
+                i = rng.choice(cands)
+                lines[i][2] = [] if lines[i][2] and rng.random() < 0.5 else rng.choice(PARENTS)
+        elif r < 0.68 and lines:
             del lines[min(pos, len(lines) - 1)]
-        elif r < 0.85 and lines:
+        elif r < 0.84 and lines:
             lines[min(pos, len(lines) - 1)][0] = ind
+        elif r < 0.92:
+            lines.insert(pos, [ind, rng.choice(["n", "g", "m"]), [rng.choice(NAMES)], rng.randint(0, 9)])
         else:
-            lines.insert(pos, [ind, rng.choice(["n", "g", "m"]), rng.choice(NAMES), rng.randint(0, 9)])
+            lines.insert(pos, [ind, "p:" + gen_prop(rng), [], 0])
     return lines
 
 
 def line_kind_text(l):
-    return {"c1": "@case true", "c0": "@case false", "else": "@else", "end": "@end"}.get(l[1], l[1])
+    pre = ".".join(l[2]) + "." if l[2] else ""
+    return {"c1": pre + "@case true", "c0": pre + "@case false", "else": pre + "@else", "end": pre + "@end"}.get(l[1], l[1])
 
 
 def judge_lines(ctx, lines, r, tag):
@@ -364,6 +464,8 @@ def judge_lines(ctx, lines, r, tag):
              if mis and ctx.evaluations % 50 == 0 else None)
     ctx.count("lines.%s" % tag)
     ctx.count("lines.misplaced" if mis else "lines.not_misplaced")
+    if any(l[2] for l in lines if l[1] in ("c1", "c0", "else", "end")):
+        ctx.count("lines.with_compact_clause_lines")
     if imp == "err":
         ctx.count("lines.impl_err")
     if mis and imp != "err":
@@ -384,10 +486,9 @@ def judge_lines(ctx, lines, r, tag):
             i = 0
             while i < len(cut) - 1:
                 cand = cut[:i] + cut[i + 1:]
-                q = ctx.driver.ask({"p": "C15", "k": "lines", "lines": cand})
-                ok = "ok" in q and q["ok"]["misplaced"] and not any(
-                    "ok" in z and z["ok"]["misplaced"] for z in
-                    ctx.driver.ask_many([{"p": "C15", "k": "lines", "lines": cand[:-1]}]))
+                q, q0 = ctx.driver.ask_many([{"p": "C15", "k": "lines", "lines": cand},
+                                             {"p": "C15", "k": "lines", "lines": cand[:-1]}])
+                ok = "ok" in q and q["ok"]["misplaced"] and not ("ok" in q0 and q0["ok"]["misplaced"])
                 if ok:
                     imp3, _ = impl_run(to_text(q["ok"]["lines"]))
                     if imp3 != "err":
@@ -418,16 +519,29 @@ def lines_stream(ctx, count, corpus_lines):
     for r in res:
         if "ok" not in r:
             continue
-        base = [parse_text_line(i, t) for i, t in r["ok"]["lines"]]
-        batch.append((mutate_lines(rng, base), "mutated"))
+        batch.append((mutate_lines(rng, r["ok"]["specs"]), "mutated"))
     out = ctx.driver.ask_many([{"p": "C15", "k": "lines", "lines": l} for l, _ in batch])
     for (lines, tag), r in zip(batch, out):
         judge_lines(ctx, lines, r, tag)
 
 
+# ------------------------------------------------------------------ hand-written texts (outside the line language)
+def texts_stream(ctx, texts):
+    for t in texts:
+        imp, _ = impl_run(t["text"])
+        exp = t["expect"]
+        ctx.case(["text", t["name"]], True, None)
+        ctx.count("texts")
+        if imp != exp:
+            ctx.violation("text:" + t["name"],
+                          "text\n    %s\n  real parser gives %s, the property requires %s (%s)" %
+                          (t["text"].replace("\n", "\n    "), imp, exp, t.get("note", "")),
+                          {"stream": "text", "name": t["name"], "text": t["text"], "impl": imp, "spec": exp})
+
+
 # ------------------------------------------------------------------ entry points
 def load_corpus():
-    items, lines = [], []
+    items, lines, texts = [], [], []
     d = VERIF / "corpus" / "C15"
     for f in sorted(d.glob("*.json")):
         j = json.loads(f.read_text())
@@ -436,12 +550,15 @@ def load_corpus():
                 items.append(e["items"])
             elif "lines" in e:
                 lines.append(e["lines"])
-    return items, lines
+            elif "text" in e:
+                texts.append(e)
+    return items, lines, texts
 
 
 def correspond(ctx: Ctx):
     thorough = ctx.tier == "thorough"
-    c_items, c_lines = load_corpus()
+    c_items, c_lines, c_texts = load_corpus()
+    texts_stream(ctx, c_texts)
     ast_stream(ctx, 3000 if thorough else 400, 6 if thorough else 5, 1500 if thorough else 160, c_items)
     lines_stream(ctx, 15000 if thorough else 2000, c_lines)
     ctx.extra.pop("_shrunk", None)
@@ -451,9 +568,10 @@ def search(ctx: Ctx):
     """A proof obligation or the tie broke and no failing input is known yet: more programs, other seeds."""
     for extra in range(3):
         if ctx.violations:
-            return
+            break
         ast_stream(ctx, 400, 5, 200, [])
         lines_stream(ctx, 2000, [])
+    ctx.extra.pop("_shrunk", None)
 
 
 def replay(ctx: Ctx, payload):
@@ -467,7 +585,12 @@ def replay(ctx: Ctx, payload):
         print(json.dumps(payload, indent=1)[:4000])
         return 1
     rp = payload.get("replay", payload)
-    if rp.get("stream") == "lines" or "lines" in rp and "items" not in rp:
+    if rp.get("stream") == "text":
+        imp, _ = impl_run(rp["text"])
+        print(rp["text"])
+        print("real parser:", imp, " required:", rp["spec"])
+        bad = imp != rp["spec"]
+    elif rp.get("stream") == "lines" or "lines" in rp and "items" not in rp:
         r = ctx.driver.ask({"p": "C15", "k": "lines", "lines": rp["lines"]})["ok"]
         text = to_text(r["lines"])
         imp, _ = impl_run(text)
@@ -476,7 +599,8 @@ def replay(ctx: Ctx, payload):
         bad = (r["misplaced"] and imp != "err")
     else:
         r = ctx.driver.ask({"p": "C15", "k": "ast", "items": rp["items"]})["ok"]
-        text = to_text(r["lines"], None, rp.get("deco") if rp.get("deco") == "expr" else None)
+        deco = rp.get("deco") if rp.get("deco") in ("expr", "undef") else None
+        text = to_text(r["lines"], None, deco, case_contexts(rp["items"]) if deco == "undef" else None)
         imp, _ = impl_run(text)
         if rp.get("deco") == "expr" and imp != "err":
             imp = imp[1:]
